@@ -2,6 +2,8 @@ package byz
 
 import (
 	"fmt"
+	"sort"
+	"strings"
 	"math/rand/v2"
 	"sync"
 	"sync/atomic"
@@ -422,9 +424,12 @@ func runCluster(r *mon.Run, stream uint64, special string) {
 			}
 		}
 		vsig := "no-convergence-within-90s"
-		if small {
-			vsig = "no-convergence-within-90s:max-send-blocks-below-100"
+		if cls := honestBanClass(nodes); cls != "" {
+			vsig += ":honest-peer-banned:" + cls
+		} else if small {
+			vsig += ":max-send-blocks-below-100"
 		}
+		fmt.Printf("note: C12 stream=%d %s stuck=%v\n", stream, vsig, stuck)
 		r.Violation(vsig, "honest connected nodes did not converge to the heaviest valid chain within the bound", cc, map[string]any{"stuck": stuck, "nodes": getReps(), "tree": summarize(t)})
 	}
 	for _, n := range nodes {
@@ -436,4 +441,21 @@ func runCluster(r *mon.Run, stream uint64, special string) {
 	if stream%37 == 0 {
 		r.Sample(map[string]any{"case": cc, "converged_ms": convAt.Milliseconds(), "tree_nodes": len(t.Nodes)})
 	}
+}
+
+// honestBanClass summarises the bans honest nodes issued against each other
+// (every peer of a C12 cluster is honest, so every ban is one).
+func honestBanClass(nodes []*p2plab.Node) string {
+	cls := map[string]bool{}
+	for _, n := range nodes {
+		for _, b := range n.PS.Bans() {
+			cls[banReasonClass(b.Reason)] = true
+		}
+	}
+	var out []string
+	for c := range cls {
+		out = append(out, c)
+	}
+	sort.Strings(out)
+	return strings.Join(out, "+")
 }
